@@ -2,6 +2,7 @@
 From Coq Require Import List ZArith NArith Bool.
 Import ListNotations.
 From GS Require Import Num EventLoop Kernel Sim.
+From GS Require Import NumZ Sim ExampleKit.
 From GS.Proofs Require Import Aux EventLoopP KernelP KernelP2 StreamP.
 
 (** Driving: if the blocking call terminates, then stepping manually reaches the same state and
@@ -51,6 +52,15 @@ Theorem C06_draws_are_consumed_in_order :
          (react : nat -> PS -> F -> cb F -> PS * list (action F)) (c : kcfg F) (s : kstate F (payload F) (sstate F PS)),
     cur s <= cur (fst (fst (k_step A (sim_hooks A cfg react) c s))).
 Proof. intros. apply k_step_cur. Qed.
+
+(** Non-vacuity: the same scenario driven by the blocking call and by six manual steps. *)
+Definition ex6 (n : nat) (ps : unit) (now : Z) (c : cb Z) : unit * list (action Z) :=
+  match c with CbInit => (tt, [ASetTimer 0 1%Z; ASetTimer 1 2%Z]) | _ => (tt, []) end.
+Example C06_example :
+  fst (fst (fst (runx (cfgx [HTimer] 1 [(0, 0, 0)%Z] 10%Z 0%Z 0%Z 1%Z 1%Z [] []) ex6 None None 20))) =
+  fst (stepx (cfgx [HTimer] 1 [(0, 0, 0)%Z] 10%Z 0%Z 0%Z 1%Z 1%Z [] []) ex6 None None 6) /\
+  snd (stepx (cfgx [HTimer] 1 [(0, 0, 0)%Z] 10%Z 0%Z 0%Z 1%Z 1%Z [] []) ex6 None None 6) = [true; false; false; false; false; false].
+Proof. vm_compute. split; reflexivity. Qed.
 
 Print Assumptions C06_blocking_equals_stepping.
 Print Assumptions C06_trace_is_a_function_of_the_scenario.
